@@ -977,6 +977,10 @@ int myltoa(Long x, char* s)
 	}
 	if (x<0)
 	{
+		if (x == (-9223372036854775807LL - 1)) {
+			strcpy(s, "-9223372036854775808");
+			return 20;
+		}
 		s[j++] = '-';
 		x = -x;
 	}
